@@ -744,7 +744,7 @@ func c19Claims(w *World, r *Recorder, fn *ssa.Function, p Path, pkey, st string,
 func checkC20(w *World, r *Recorder) propInfo {
 	regName := "psatoken.profilesRegister"
 	if g := registerGlobal(w); g != nil {
-		regName = globalName(g)
+		regName = regMemName(g)
 	}
 	info := propInfo{
 		Explanation: "Decided part: (U1) every path of Evidence.UnmarshalCOSE that can succeed contains exactly one call of the *tagged* (*cose.Sign1Message).UnmarshalCBOR — no other go-cose decode entry (UntaggedSign1Message, SignMessage, …) appears on any path — applied to the caller's whole, unsliced buffer, with a nil result; its failure makes the method fail; (U2) the claims are then decoded with DecodeClaimsFromCBOR from that message's Payload and a decode error makes the method fail; DecodeEvidenceFromCOSE returns a nil Evidence on every failing path; (U3) DecodeClaimsFromCBOR succeeds only after the package decode mode decoded the payload into the profile-selector struct and into the claims object, both with nil error, and the profile was found in the register. Thorough tier: audit of the pinned go-cose source for the tag-18 prefix test, 4-element typed array, and empty-signature rejection. Not decided: the CBOR library's rejection of each malformed form (a library fact).",
